@@ -5,5 +5,6 @@ CONSTANTS
   N = 2
   MaxEvents = 3
   M_SelectorIndependentOfOtherActions = FALSE
+  M_OnlyTimeoutExempt = TRUE
 INVARIANTS TypeOK SelectorDecides
 CHECK_DEADLOCK FALSE
